@@ -28,6 +28,7 @@ type _watcher struct {
 	client client.WatchClient
 
 	resetch chan string
+	retrych chan string
 	evtch   chan chan (<-chan Event)
 
 	log logutil.Log
@@ -42,6 +43,7 @@ func newWatcher(ctx context.Context, log logutil.Log, stopch <-chan struct{}, cl
 	w := &_watcher{
 		client:  client,
 		resetch: make(chan string),
+		retrych: make(chan string),
 		evtch:   make(chan chan (<-chan Event)),
 		log:     log,
 		lc:      lc,
@@ -122,8 +124,17 @@ mainloop:
 
 			session.stop()
 			session = nullWatchSession{}
-			outch = nil
-			retry = w.scheduleRetry(w.resetch, curVersion)
+			retry = w.scheduleRetry(w.retrych, curVersion)
+
+		case <-w.retrych:
+			if retry == nil {
+				// superseded by a reset
+				continue
+			}
+			w.log.Debugf("reconnecting at version %v", curVersion)
+			retry = nil
+			session.stop()
+			session = newWatchSession(ctx, w.log, w.client, curVersion)
 
 		case evt := <-session.events():
 
